@@ -158,7 +158,7 @@ STATES = {
     "containers": {"l": [1, 2], "d": {"k": 1}, "ud": {"a": [1]}, "any": {"x": [None]}},
     "items-1": {"items": [{"c": 1, "s": "i1"}]},
     "items-2": {"items": [{"c": 1, "s": "i1"}, {"c": 2}], "t": {"c": "tt"}},
-    "nulls": {"s": None, "i": None},
+    "nulls": {"s": None, "i": None, "sub": {"c": None}, "items": [{"c": None}], "t": {"c": None}, "l": None},
     "everything": {"s": "h", "i": 2, "f": 0.5, "b": "YQ==", "ch": "p", "sec": "s", "l": [3], "d": {"k": 2}, "any": [1], "sub": {"c": "c", "deep": {"e": "e"}},
                    "items": [{"c": 9, "s": "z"}], "t": {"c": "q"}},
     "dynamic": {"extra": {"k": [1, "two"]}},
@@ -168,7 +168,7 @@ PRIORS = ["same-format", "other-format", "absent"]
 
 
 def bounds(tier):
-    return {"states": list(STATES) if tier == "thorough" else ["scalars", "secrets", "items-2", "everything", "bytes-digest", "containers"],
+    return {"states": list(STATES) if tier == "thorough" else ["scalars", "secrets", "items-2", "everything", "bytes-digest", "containers", "nulls"],
             "formats": FORMATS, "priors": PRIORS, "exception_classes": sorted(exc_classes(tier))}
 
 
